@@ -96,7 +96,7 @@ pub proof fn lemma_find_virtual<P: Prefix, T>(t: Seq<Node<P, T>>, loc: ViewLoc<P
     let q = qp.bits();
     let live = tlive(t);
     let l2 = ViewLoc::Virtual(qp, c);
-    lemma_twf(t);
+    lemma_twf_live(t);
     lemma_step(t, live, idx, q);
     assert(live.contains(c as int));
     assert forall|n: int| #![trigger live.contains(n)] live.contains(n) && pre(q, kb(t, n)) implies pre(kb(t, c as int), kb(t, n)) by {
@@ -120,7 +120,7 @@ pub proof fn lemma_find_none<P: Prefix, T>(t: Seq<Node<P, T>>, loc: ViewLoc<P>, 
 {
     reveal(find_spec); reveal(find_exact_spec); reveal(find_lpm_spec); reveal(side_spec); reveal(under_view);
     let live = tlive(t);
-    lemma_twf(t);
+    lemma_twf_live(t);
     assert forall|n: int| !(#[trigger] in_view(t, loc, n) && pre(q, kb(t, n))) by {
         if live.contains(n) { lemma_region_empty(t, live, idx, q, n); }
     }
@@ -134,7 +134,7 @@ pub proof fn lemma_find_step<P: Prefix, T>(t: Seq<Node<P, T>>, loc: ViewLoc<P>, 
         !path_ends(t, idx, q) ==> find_inv(t, loc, q, path_next(t, idx, q)),
 {
     reveal(find_spec); reveal(find_exact_spec); reveal(find_lpm_spec); reveal(side_spec); reveal(under_view);
-    lemma_twf(t);
+    lemma_twf_live(t);
     lemma_step(t, tlive(t), idx, q);
     if !path_ends(t, idx, q) {
         lemma_pre_trans(kb(t, vidx(loc)), kb(t, idx), kb(t, path_next(t, idx, q)));
@@ -147,7 +147,7 @@ pub proof fn lemma_find_start<P: Prefix, T>(t: Seq<Node<P, T>>, loc: ViewLoc<P>,
     ensures find_inv(t, loc, q, vidx(loc)), vidx(loc) < t.len()
 {
     reveal(find_spec); reveal(find_exact_spec); reveal(find_lpm_spec); reveal(side_spec); reveal(under_view);
-    lemma_twf(t);
+    lemma_live_bound(t, vidx(loc));
     lemma_pre_refl(kb(t, vidx(loc)));
 }
 
@@ -203,7 +203,7 @@ pub proof fn lemma_fe_step<P: Prefix, T>(t: Seq<Node<P, T>>, loc: ViewLoc<P>, q:
 {
     reveal(find_spec); reveal(find_exact_spec); reveal(find_lpm_spec); reveal(side_spec); reveal(under_view);
     let live = tlive(t);
-    lemma_twf(t);
+    lemma_twf_live(t);
     lemma_pre_refl(kb(t, idx));
     lemma_step(t, live, idx, kb(t, idx));
     lemma_view_region(t, loc, idx);
@@ -267,7 +267,7 @@ pub proof fn lemma_side_node<P: Prefix, T>(t: Seq<Node<P, T>>, i: usize, s: bool
     let live = tlive(t);
     let loc = ViewLoc::<P>::Node(i);
     let x = kb(t, i as int);
-    lemma_twf(t);
+    lemma_twf_live(t);
     lemma_pre_refl(x);
     lemma_step(t, live, i as int, x);
     if chd(t, i as int, s).is_some() {
@@ -297,7 +297,8 @@ pub proof fn lemma_side_virtual<P: Prefix, T>(t: Seq<Node<P, T>>, p: P, i: usize
     let live = tlive(t);
     let loc = ViewLoc::Virtual(p, i);
     let x = p.bits();
-    lemma_twf(t);
+    lemma_live_bound(t, i as int);
+    lemma_twf_live(t);
     assert forall|n: int| in_view(t, loc, n) implies pre(kb(t, i as int), kb(t, n)) && spre(x, kb(t, n)) && kb(t, n)[x.len() as int] == kb(t, i as int)[x.len() as int] by {
         lemma_view_region(t, loc, n);
     }
@@ -320,7 +321,7 @@ pub proof fn lemma_view_iter<P: Prefix, T>(tbl: &Table<P, T>, loc: ViewLoc<P>, s
 {
     reveal(find_spec); reveal(find_exact_spec); reveal(find_lpm_spec); reveal(side_spec); reveal(under_view);
     let t = tbl.0@;
-    lemma_twf(t);
+    lemma_twf_live(t);
     lemma_iter_from(tbl, st, vidx(loc));
     assert forall|n: int| #[trigger] remaining(t, tlive(t), st, n) == (in_view(t, loc, n) && t[n].value.is_some()) by {
         lemma_view_region(t, loc, n);
@@ -356,7 +357,7 @@ pub proof fn lemma_vlpm_start<P: Prefix, T>(t: Seq<Node<P, T>>, loc: ViewLoc<P>,
     ensures vlpm_upto::<P, T>(t, loc, vidx(loc), true, None), find_inv(t, loc, q, vidx(loc))
 {
     reveal(find_spec); reveal(find_exact_spec); reveal(find_lpm_spec); reveal(side_spec); reveal(under_view);
-    lemma_twf(t);
+    lemma_twf_live(t);
     lemma_pre_refl(kb(t, vidx(loc)));
     assert forall|n: int| #[trigger] in_view(t, loc, n) && t[n].value.is_some() && pre(kb(t, n), kb(t, vidx(loc))) && kb(t, n).len() < kb(t, vidx(loc)).len() implies false by {
         lemma_view_region(t, loc, n);
@@ -387,7 +388,7 @@ pub proof fn lemma_vlpm_end<P: Prefix, T>(t: Seq<Node<P, T>>, loc: ViewLoc<P>, q
 {
     reveal(find_lpm_spec);
     let live = tlive(t);
-    lemma_twf(t);
+    lemma_twf_live(t);
     lemma_step(t, live, idx, q);
     assert forall|n: int| #[trigger] in_view(t, loc, n) && t[n].value.is_some() && pre(kb(t, n), q) implies pre(kb(t, n), kb(t, idx)) by {
         lemma_pre_comparable(kb(t, n), kb(t, idx), q);
@@ -403,7 +404,7 @@ pub proof fn lemma_vlpm_next<P: Prefix, T>(t: Seq<Node<P, T>>, loc: ViewLoc<P>, 
     ensures find_inv(t, loc, q, path_next(t, idx, q)), vlpm_upto(t, loc, path_next(t, idx, q), true, best2)
 {
     let live = tlive(t);
-    lemma_twf(t);
+    lemma_twf_live(t);
     lemma_find_step(t, loc, q, idx);
     lemma_step(t, live, idx, q);
     let c = path_next(t, idx, q);
@@ -485,7 +486,7 @@ pub proof fn lemma_side_excl<P: Prefix, T>(t: Seq<Node<P, T>>, loc: ViewLoc<P>, 
 {
     reveal(side_spec);
     let live = tlive(t);
-    lemma_twf(t);
+    lemma_twf_live(t);
     let x = vbits(t, loc);
     if loc is Node && chd(t, vidx(loc), s).is_some() {
         lemma_pre_refl(kb(t, vidx(loc)));
